@@ -8,3 +8,4 @@ import WhatIs.Props.C07
 import WhatIs.Props.C13
 import WhatIs.Props.C10
 import WhatIs.Props.C18
+import WhatIs.Props.C06
